@@ -1,22 +1,47 @@
 #!/usr/bin/env python3
-"""Prints the seeded-change table (markdown) from /verif/seeded/*/meta.json and check_results.json."""
-import json, glob, os
-print("| seed | target | change (sub-agent's summary) | needs | caught by (quick checks) |")
-print("|---|---|---|---|---|")
+"""Prints the seeded-change table (markdown) from /verif/seeded/*/meta.json and check_results.json.
+With --write, replaces the table under '### 12.7' in DESIGN.md."""
+import json, glob, os, sys
+rows = ["| seed | target | change (the sub-agent's own summary) | needs | caught by |", "|---|---|---|---|---|"]
+clip = lambda s, k: (s[:k] + "...") if len(s) > k else s
 for d in sorted(glob.glob("/verif/seeded/*")):
     n = os.path.basename(d)
     try:
         m = json.load(open(d + "/meta.json"))
     except Exception:
         continue
-    det = "(matrix not run yet)"
+    res = {}
     if os.path.exists(d + "/check_results.json"):
-        r = json.load(open(d + "/check_results.json"))
-        if "detected_by" in r:
-            det = ", ".join(r["detected_by"]) or "NONE"
-            if r.get("machinery_exit"):
-                det += " (exit 2: " + ", ".join(r["machinery_exit"]) + ")"
-        else:
-            det = ", ".join(k for k, v in r.items() if v.get("exit") == 1) + " (target check only)"
-    clip = lambda s, k: (s[:k] + "...") if len(s) > k else s
-    print("| %s | %s | %s | %s | %s |" % (n, m.get("property", "?"), clip(m.get("summary", "").replace("|", "/").replace("\n", " "), 220), clip(m.get("needs", "").replace("|", "/").replace("\n", " "), 160), det))
+        res = json.load(open(d + "/check_results.json"))
+    hit = [k for k, v in res.items() if isinstance(v, dict) and v.get("exit") == 1]
+    if "detected_by" in res:
+        hit = res["detected_by"]
+    summary = clip(m.get("summary", "").replace("|", "/").replace("\n", " "), 220)
+    needs = clip(m.get("needs", "").replace("|", "/").replace("\n", " "), 160)
+    if n.startswith("neutral"):
+        target = "(none: behaviour-preserving)"
+        det = "must stay silent: " + ("all checks run exit 0" if not hit else "FLAGGED BY " + ", ".join(hit))
+        needs = "-"
+    elif n.startswith("obsolete"):
+        target = m.get("property", "?")
+        det = "obsolete: " + clip(m.get("obsolete", ""), 200)
+    elif n.startswith("contested"):
+        target = m.get("property", "?")
+        det = ", ".join(hit) + " (by decision, see 12.2)"
+    else:
+        target = m.get("property", "?")
+        det = ", ".join(hit) if hit else "NONE"
+    if m.get("rebased"):
+        det += " (rebased)"
+    rows.append("| %s | %s | %s | %s | %s |" % (n, target, summary, needs, det))
+table = "\n".join(rows) + "\n"
+if "--write" in sys.argv:
+    p = "/verif/DESIGN.md"
+    s = open(p).read()
+    i = s.index("### 12.7 Seeded changes: the table")
+    j = s.index("| seed | target |", i)
+    s = s[:j] + table
+    open(p, "w").write(s)
+    print("DESIGN.md 12.7 rewritten:", len(rows) - 2, "rows")
+else:
+    sys.stdout.write(table)
